@@ -1,7 +1,7 @@
 (* C11 — the LOUDS numbering argument (layer 3, second half (a)): navigating the label bitmap of
    [louds_of_nodes] with naive rank/select ([l_has]) visits exactly the tree of [kids] that [walk] walks.
    No axioms, nothing admitted. *)
-From Coq Require Import List NArith Bool Lia ZifyBool ZifyN ZifyNat.
+From Coq Require Import List Arith NArith Bool Lia ZifyBool ZifyN ZifyNat Sorting.Permutation.
 From Dae Require Import C11_Spec C11_Model C11_Louds.
 Import ListNotations.
 Local Open Scope nat_scope.
@@ -117,7 +117,7 @@ Proof.
   induction l as [|g l IH]; intros H; [constructor|]. inversion H as [|? ? Hg Hl]; subst. cbv beta in Hg.
   unfold next. cbn [flat_map]. apply Forall_app. split; [|now apply IH].
   unfold ch, kids. apply Forall_map. eapply Forall_impl; [|apply (groups_height (drop_leaf g))].
-  intros k Hk. cbv beta in Hk. pose proof (drop_leaf_height g). Set Printing All. Show. lia.
+  intros k Hk. cbv beta in Hk. pose proof (drop_leaf_height g). unfold node in *. lia.
 Qed.
 
 Lemma next_app : forall a b, next (a ++ b) = next a ++ next b.
@@ -129,8 +129,8 @@ Proof.
   induction f as [|f IH]; intros l H.
   - destruct l as [|g l]; [reflexivity|]. inversion H; lia.
   - cbn [bfs]. destruct l as [|g l']; [reflexivity|].
-    set (l := g :: l') in *. rewrite next_app. rewrite <- (IH (next l)); [reflexivity|].
-    apply next_height, H.
+    set (l := g :: l') in *. change (flat_map (fun g0 : node => map snd (kids g0)) l) with (next l).
+    rewrite next_app. f_equal. apply IH. apply next_height, H.
 Qed.
 
 Lemma bfs_nodes_fix : forall keys, bfs_nodes keys = sort_uniq keys :: next (bfs_nodes keys).
@@ -138,4 +138,297 @@ Proof.
   intros keys. unfold bfs_nodes. cbv zeta.
   rewrite (bfs_fix (S (S (max_len (sort_uniq keys)))) [sort_uniq keys]) at 1; [reflexivity|].
   constructor; [lia | constructor].
+Qed.
+
+(* ================= 3. rank / select on a concatenation of unary-coded degrees ================= *)
+Definition lbm_of (nodes : list node) : list bool :=
+  flat_map (fun g => repeat false (length (kids g)) ++ [true]) nodes.
+Definition lab_of (lab : N * node -> N) (nodes : list node) : list N :=
+  flat_map (fun g => map lab (kids g)) nodes.
+
+Lemma lbm_of_app : forall a b, lbm_of (a ++ b) = lbm_of a ++ lbm_of b.
+Proof. intros. apply flat_map_app. Qed.
+Lemma lab_of_app : forall lab a b, lab_of lab (a ++ b) = lab_of lab a ++ lab_of lab b.
+Proof. intros. apply flat_map_app. Qed.
+
+Lemma lab_of_length : forall lab l, length (lab_of lab l) = length (next l).
+Proof.
+  induction l as [|g l IH]; [reflexivity|]. unfold lab_of, next in *. cbn [flat_map].
+  rewrite !app_length, IH. unfold ch. now rewrite !map_length.
+Qed.
+
+Lemma lbm_of_length : forall l, length (lbm_of l) = length l + length (next l).
+Proof.
+  induction l as [|g l IH]; [reflexivity|]. unfold lbm_of, next in *. cbn [flat_map length].
+  rewrite !app_length, IH, repeat_length. unfold ch. rewrite map_length. cbn [length]. lia.
+Qed.
+
+Lemma filter_negb_repeat : forall k, filter negb (repeat false k) = repeat false k.
+Proof. induction k as [|k IH]; [reflexivity|]. cbn [repeat filter negb]. now rewrite IH. Qed.
+
+Lemma lbm_of_zeros : forall l, length (filter negb (lbm_of l)) = length (next l).
+Proof.
+  induction l as [|g l IH]; [reflexivity|]. unfold lbm_of, next in *. cbn [flat_map].
+  rewrite !filter_app, !app_length, IH, filter_negb_repeat, repeat_length. unfold ch. rewrite map_length.
+  cbn [filter negb length]. lia.
+Qed.
+
+Lemma nth_mid : forall (A : Type) (X : list A) y Z d k, k = length X -> nth k (X ++ y :: Z) d = y.
+Proof. intros; subst. apply nth_middle. Qed.
+
+(* rank: the zeros up to and including the i-th edge of the node after [pre] *)
+Lemma count_zeros_edge : forall pre d i rest, i < d ->
+  count_zeros_l (lbm_of pre ++ repeat false d ++ true :: rest) (S (length (lbm_of pre) + i))
+  = length (next pre) + S i.
+Proof.
+  intros pre d i rest Hi. unfold count_zeros_l.
+  replace (S (length (lbm_of pre) + i)) with (length (lbm_of pre) + S i) by lia.
+  rewrite firstn_app_2, filter_app, app_length, lbm_of_zeros. f_equal.
+  replace d with (S i + (d - S i)) by lia. rewrite repeat_app, <- app_assoc.
+  replace (S i) with (length (repeat false (S i)) + 0) at 1 by (rewrite repeat_length; lia).
+  rewrite firstn_app_2. cbn [firstn]. rewrite app_nil_r, filter_negb_repeat, repeat_length. reflexivity.
+Qed.
+
+Lemma select_skip_zeros : forall k rest i pos,
+  select_one_l (repeat false k ++ rest) i pos = select_one_l rest i (pos + k).
+Proof.
+  induction k as [|k IH]; intros rest i pos; cbn [repeat app select_one_l]; [f_equal; lia|].
+  rewrite IH. f_equal. lia.
+Qed.
+
+(* select: one past the one that closes node m is the start of node m+1 *)
+Lemma select_close : forall nodes m pos, m < length nodes ->
+  S (select_one_l (lbm_of nodes) m pos) = pos + length (lbm_of (firstn (S m) nodes)).
+Proof.
+  induction nodes as [|g r IH]; intros m pos Hm; [cbn [length] in Hm; lia|].
+  change (lbm_of (g :: r)) with ((repeat false (length (kids g)) ++ [true]) ++ lbm_of r).
+  rewrite <- app_assoc, select_skip_zeros. cbn [app select_one_l]. destruct m as [|m].
+  - cbn [firstn]. change (lbm_of [g]) with ((repeat false (length (kids g)) ++ [true]) ++ []).
+    rewrite !app_length, repeat_length. cbn [length]. lia.
+  - cbn [length] in Hm. rewrite IH by lia.
+    change (firstn (S (S m)) (g :: r)) with (g :: firstn (S m) r).
+    change (lbm_of (g :: firstn (S m) r)) with ((repeat false (length (kids g)) ++ [true]) ++ lbm_of (firstn (S m) r)).
+    rewrite !app_length, repeat_length. cbn [length]. lia.
+Qed.
+
+(* ================= 4. the label scan ================= *)
+Fixpoint fidx {A : Type} (f : A -> bool) (l : list A) : option nat :=
+  match l with
+  | [] => None
+  | x :: r => if f x then Some 0 else option_map S (fidx f r)
+  end.
+
+Lemma fidx_find : forall (A : Type) (f : A -> bool) l,
+  find f l = match fidx f l with Some i => nth_error l i | None => None end.
+Proof.
+  induction l as [|x r IH]; [reflexivity|]. cbn [find fidx]. destruct (f x); [reflexivity|].
+  rewrite IH. destruct (fidx f r); reflexivity.
+Qed.
+
+Lemma fidx_lt : forall (A : Type) (f : A -> bool) l i, fidx f l = Some i -> i < length l.
+Proof.
+  induction l as [|x r IH]; intros i H; [discriminate|]. cbn [fidx] in H. cbn [length].
+  destruct (f x); [inversion H; lia|]. destruct (fidx f r) as [j|]; [|discriminate].
+  inversion H; subst. specialize (IH j eq_refl). lia.
+Qed.
+
+Lemma fidx_ext : forall (A : Type) (f g : A -> bool) l, Forall (fun x => f x = g x) l -> fidx f l = fidx g l.
+Proof.
+  induction l as [|x r IH]; intros H; [reflexivity|]. inversion H; subst. cbn [fidx].
+  rewrite IH by assumption. now replace (g x) with (f x).
+Qed.
+
+Lemma scan_from : forall (lab : N * node -> N) L n tc A B LA LB rest done fuel,
+  l_lbm L = A ++ repeat false (length done + length rest) ++ true :: B ->
+  l_labels L = LA ++ map lab (done ++ rest) ++ LB ->
+  length A = n + length LA ->
+  length rest < fuel ->
+  l_scan fuel L n (length A + length done) tc
+  = option_map (fun i => length A + length done + i) (fidx (fun k => (lab k =? tc)%N) rest).
+Proof.
+  intros lab L n tc A B LA LB. induction rest as [|k rest IH]; intros done fuel Hb Hl HA Hf;
+    (destruct fuel as [|fuel]; [cbn [length] in Hf; lia|]); cbn [l_scan fidx option_map].
+  - rewrite Hb, app_assoc, nth_mid; [reflexivity|]. rewrite app_length, repeat_length. cbn [length]. lia.
+  - assert (Hbit : nth (length A + length done) (l_lbm L) true = false).
+    { rewrite Hb. cbn [length]. replace (length done + S (length rest)) with (length done + (1 + length rest)) by lia.
+      rewrite repeat_app. cbn [repeat app]. rewrite <- app_assoc. cbn [app]. rewrite app_assoc.
+      apply nth_mid. rewrite app_length, repeat_length. reflexivity. }
+    assert (Hlab : nth (length A + length done - n) (l_labels L) 0%N = lab k).
+    { rewrite Hl, map_app. cbn [map]. rewrite <- app_assoc. cbn [app]. rewrite app_assoc.
+      apply nth_mid. rewrite app_length, map_length. lia. }
+    rewrite Hbit, Hlab. destruct (lab k =? tc)%N.
+    + cbn [option_map]. f_equal. lia.
+    + replace (S (length A + length done)) with (length A + length (done ++ [k])) by (rewrite app_length; cbn [length]; lia).
+      rewrite (IH (done ++ [k]) fuel).
+      * destruct (fidx _ rest) as [i|]; cbn [option_map]; [|reflexivity]. f_equal. rewrite app_length. cbn [length]. lia.
+      * rewrite Hb. do 3 f_equal. rewrite app_length. cbn [length]. lia.
+      * rewrite Hl. do 3 f_equal. rewrite <- app_assoc. reflexivity.
+      * exact HA.
+      * cbn [length] in Hf. lia.
+Qed.
+
+(* ================= 5. navigating the arrays = walking the tree ================= *)
+Lemma l_has_from_cons : forall chars L c w n b,
+  l_has_from chars L (c :: w) n b =
+  if nth n (l_leaves L) false then true
+  else if negb (vc_valid chars c) then false
+  else match l_scan (length (l_lbm L)) L n b (vc_table chars c) with
+       | None => false
+       | Some bm =>
+           l_has_from chars L w (count_zeros_l (l_lbm L) (S bm))
+             (S (select_one_l (l_lbm L) (count_zeros_l (l_lbm L) (S bm) - 1) 0))
+       end.
+Proof. reflexivity. Qed.
+
+Lemma next_split : forall pre g post, next (pre ++ g :: post) = next pre ++ ch g ++ next post.
+Proof. intros. rewrite next_app. reflexivity. Qed.
+
+Section Main.
+  Variable chars : list N.
+  Variable nodes : list node.
+  Variable root : node.
+  Hypothesis Hinj : forall a b, vc_valid chars a = true -> vc_valid chars b = true ->
+    vc_table chars a = vc_table chars b -> a = b.
+  Hypothesis Hfix : nodes = root :: next nodes.
+  Hypothesis Hval : Forall (node_valid chars) nodes.
+
+  Let lab (k : N * node) : N := vc_table chars (fst k).
+  Let L := louds_of_nodes chars nodes.
+
+  Lemma child_index : forall pre g post i h, nodes = pre ++ g :: post ->
+    nth_error (ch g) i = Some h -> nth_error nodes (S (length (next pre) + i)) = Some h.
+  Proof.
+    intros pre g post i h H Hi.
+    assert (E : next nodes = next pre ++ ch g ++ next post) by (rewrite H at 1; apply next_split).
+    rewrite Hfix. cbn [nth_error]. rewrite E.
+    rewrite nth_error_app2 by lia. replace (length (next pre) + i - length (next pre)) with i by lia.
+    rewrite nth_error_app1; [exact Hi|]. apply nth_error_Some. congruence.
+  Qed.
+
+  Lemma numbering_invariant : forall w pre g post, nodes = pre ++ g :: post ->
+    l_has_from chars L w (length pre) (length (lbm_of pre)) = walk g w.
+  Proof.
+    induction w as [|c w IH]; intros pre g post H.
+    - cbn [l_has_from walk]. change (l_leaves L) with (map is_leaf nodes).
+      rewrite H, map_app. cbn [map]. apply nth_mid. now rewrite map_length.
+    - rewrite l_has_from_cons. cbn [walk].
+      assert (Hleaf : nth (length pre) (l_leaves L) false = is_leaf g).
+      { change (l_leaves L) with (map is_leaf nodes).
+        rewrite H, map_app. cbn [map]. apply nth_mid. now rewrite map_length. }
+      rewrite Hleaf. destruct (is_leaf g); [reflexivity|]. cbn [orb].
+      assert (Hg : node_valid chars g).
+      { rewrite Forall_forall in Hval. apply Hval. rewrite H. apply in_or_app. right. now left. }
+      pose proof (kids_valid chars g Hg) as Hk.
+      destruct (vc_valid chars c) eqn:Hc; cbn [negb].
+      + (* the scan *)
+        assert (Hlbm : l_lbm L = lbm_of pre ++ repeat false (length (kids g)) ++ true :: lbm_of post).
+        { change (l_lbm L) with (lbm_of nodes). rewrite H at 1. rewrite lbm_of_app.
+          change (lbm_of (g :: post)) with ((repeat false (length (kids g)) ++ [true]) ++ lbm_of post).
+          now rewrite <- app_assoc. }
+        assert (Hlabs : l_labels L = lab_of lab pre ++ map lab (kids g) ++ lab_of lab post).
+        { change (l_labels L) with (lab_of lab nodes). rewrite H at 1. rewrite lab_of_app. reflexivity. }
+        assert (Hscan := scan_from lab L (length pre) (vc_table chars c) (lbm_of pre) (lbm_of post)
+                           (lab_of lab pre) (lab_of lab post) (kids g) [] (length (l_lbm L))).
+        cbn [length app Nat.add] in Hscan. rewrite Nat.add_0_r in Hscan.
+        rewrite Hscan; clear Hscan.
+        2: exact Hlbm. 2: exact Hlabs.
+        2: { rewrite lbm_of_length, lab_of_length. reflexivity. }
+        2: { change (l_lbm L) with (lbm_of nodes). rewrite lbm_of_length. rewrite H at 2. rewrite next_split.
+             rewrite H, !app_length. unfold ch. rewrite map_length. cbn [length]. lia. }
+        assert (Hext : fidx (fun k => (lab k =? vc_table chars c)%N) (kids g) = fidx (fun k => (fst k =? c)%N) (kids g)).
+        { apply fidx_ext. eapply Forall_impl; [|exact Hk]. intros k [Hv _]. unfold lab.
+          destruct (N.eqb_spec (fst k) c) as [E|E]; [subst; apply N.eqb_refl|].
+          apply N.eqb_neq. intros E'. apply E. now apply Hinj. }
+        rewrite Hext, fidx_find. destruct (fidx (fun k => (fst k =? c)%N) (kids g)) as [i|] eqn:Ei; cbn [option_map]; [|reflexivity].
+        pose proof (fidx_lt _ _ _ _ Ei) as Hi.
+        destruct (nth_error (kids g) i) as [k|] eqn:Ek; [|apply nth_error_None in Ek; lia].
+        assert (Hch : nth_error (ch g) i = Some (snd k)) by (unfold ch; rewrite nth_error_map, Ek; reflexivity).
+        pose proof (child_index pre g post i (snd k) H Hch) as Hn.
+        assert (Hcz : count_zeros_l (l_lbm L) (S (length (lbm_of pre) + i)) = length (next pre) + S i)
+          by (rewrite Hlbm; apply count_zeros_edge; exact Hi).
+        rewrite !Hcz.
+        replace (length (next pre) + S i - 1) with (length (next pre) + i) by lia.
+        replace (length (next pre) + S i) with (S (length (next pre) + i)) by lia.
+        assert (Hm : length (next pre) + i < length nodes).
+        { assert (S (length (next pre) + i) < length nodes) by (apply nth_error_Some; congruence). lia. }
+        change (l_lbm L) with (lbm_of nodes). rewrite (select_close nodes _ 0 Hm). cbn [Nat.add].
+        destruct (nth_error_split _ _ Hn) as [pre' [post' [Hsplit Hlen]]].
+        assert (Hfirst : firstn (S (length (next pre) + i)) nodes = pre').
+        { rewrite Hsplit, <- Hlen. replace (length pre') with (length pre' + 0) by lia.
+          rewrite firstn_app_2. cbn [firstn]. apply app_nil_r. }
+        rewrite Hfirst, <- Hlen. apply (IH pre' (snd k) post' Hsplit).
+      + destruct (find (fun k => (fst k =? c)%N) (kids g)) as [k|] eqn:Ef; [|reflexivity]. exfalso.
+        apply find_some in Ef as [Hin Heq]. apply N.eqb_eq in Heq. rewrite Forall_forall in Hk.
+        destruct (Hk k Hin) as [Hv _]. congruence.
+  Qed.
+
+  Lemma numbering_root : forall w, l_has chars L w = walk root w.
+  Proof.
+    intros w. unfold l_has. apply (numbering_invariant w [] root (next nodes)). exact Hfix.
+  Qed.
+End Main.
+
+(* ================= 6. the nodes of NewTrie ================= *)
+Lemma uniq_cons2' : forall a b l, uniq (a :: b :: l) = if str_eqb a b then uniq (b :: l) else a :: uniq (b :: l).
+Proof. reflexivity. Qed.
+
+Lemma uniq_incl : forall l k, In k (uniq l) -> In k l.
+Proof.
+  induction l as [|a l IH]; intros k H; [exact H|]. destruct l as [|b l']; [exact H|].
+  rewrite uniq_cons2' in H. destruct (str_eqb a b).
+  - right. now apply IH.
+  - destruct H as [H|H]; [now left | right; now apply IH].
+Qed.
+
+Lemma sort_uniq_incl : forall keys k, In k (sort_uniq keys) -> In k keys.
+Proof.
+  intros keys k H. unfold sort_uniq in H. apply uniq_incl in H.
+  eapply Permutation_in; [apply Permutation_sym, StrSort.Permuted_sort | exact H].
+Qed.
+
+Lemma keys_valid_nodes : forall chars keys, keys_valid chars keys = true ->
+  Forall (node_valid chars) (bfs_nodes keys).
+Proof.
+  intros chars keys H. unfold bfs_nodes. cbv zeta. apply bfs_valid. constructor; [|constructor].
+  unfold node_valid. rewrite Forall_forall. intros k Hk. apply sort_uniq_incl in Hk.
+  unfold keys_valid in H. rewrite forallb_forall in H. specialize (H k Hk).
+  rewrite forallb_forall in H. rewrite Forall_forall. exact H.
+Qed.
+
+(* ================= 7. the theorem ================= *)
+Lemma louds_correct_gen :
+  forall chars keys w L, NoDup chars -> length chars <= 256 ->
+    l_new chars keys = Some L -> l_has chars L w = t_walk keys w.
+Proof.
+  intros chars keys w L ND Hlen Hnew. unfold l_new in Hnew.
+  destruct (keys_valid chars keys) eqn:Hv; [|discriminate]. inversion Hnew; subst. unfold t_walk.
+  apply (numbering_root chars (bfs_nodes keys) (sort_uniq keys)).
+  - intros a b. now apply vc_table_inj.
+  - apply bfs_nodes_fix.
+  - now apply keys_valid_nodes.
+Qed.
+
+Lemma louds_correct :
+  forall chars keys w L, NoDup chars -> (length chars <= 256)%nat -> keys <> [] ->
+    l_new chars keys = Some L -> l_has chars L w = t_walk keys w.
+Proof. intros chars keys w L ND Hlen _ Hnew. now apply louds_correct_gen. Qed.
+
+Print Assumptions louds_correct.
+
+(* non-vacuity: the hypotheses are satisfiable and both sides take both truth values *)
+Example louds_nonvacuous :
+  let chars := [97; 98; 99; 100]%N in
+  let keys := [[97;98]; [97]; [97;98;99]; [98;99]; [97;98]]%N in
+  NoDup chars /\ (length chars <= 256) /\ (keys <> []) /\
+  match l_new chars keys with
+  | Some L => map (l_has chars L) [[97]; [98]; [98;99;100]; [97;120]; []; [99]]%N
+              = [true; false; true; true; false; false]
+  | None => False
+  end.
+Proof.
+  cbv zeta. split; [|split; [|split]].
+  - repeat constructor; cbn; intuition discriminate.
+  - cbn. lia.
+  - discriminate.
+  - vm_compute. reflexivity.
 Qed.
